@@ -359,10 +359,15 @@ def run_property(pid, tier="quick", seed=0, only=None, jobs=None, no_replay=Fals
             trusted.append("assumed contract %s: %s" % (k, f.trusted_reason or "external dependency"))
         elif f.inline:
             trusted.append("%s inlined at call sites (its body is executed, not its contract)" % k)
+    known_names = {n for n, _, _ in status["known"]}
+    n_known = len([n for n in known_names if byname[n]["fn"] not in bounded_fns])
     ev = {
         "property_id": pid, "tier": tier, "seed": seed, "level": "proof",
         "coverage": {
-            "obligations": n_obl, "discharged": n_dis, "vcs": vcs,
+            # obligations claimed as proved: known-finding obligations (refuted on the real code, listed below) and
+            # bounded checks are reported separately and are NOT part of this count
+            "obligations": n_obl - n_known, "discharged": n_dis, "vcs": vcs,
+            "obligations_total_including_known_findings": n_obl, "known_finding_obligations": n_known,
             "checker_cmd": "./check %s --tier %s" % (pid, tier),
             "trusted_base": trusted,
             "back_ends": backends, "solver_secs": round(solver_secs, 3),
